@@ -558,6 +558,7 @@ func ruleRowAlias(p *Prog, r *Result) {
 					}
 					// allocated outside the loop?
 					var alloc ssa.Instruction
+					var cell *ssa.Alloc // the variable holding the object, when its address is taken (&item)
 					switch a := obj.(type) {
 					case *ssa.MakeMap:
 						alloc = a
@@ -565,9 +566,35 @@ func ruleRowAlias(p *Prog, r *Result) {
 						alloc = a
 					case *ssa.Alloc:
 						alloc = a
+					case *ssa.UnOp:
+						if c, ok := a.X.(*ssa.Alloc); ok && a.Op == token.MUL {
+							inLoopStore := false
+							for _, sv := range *c.Referrers() {
+								if s2, ok := sv.(*ssa.Store); ok && s2.Addr == ssa.Value(c) && L.Body[s2.Block()] {
+									inLoopStore = true // a fresh object is assigned per row
+								}
+							}
+							if !inLoopStore {
+								cell, alloc = c, c
+							}
+						}
 					}
 					if alloc == nil || L.Body[alloc.Block()] {
 						continue
+					}
+					isObj := func(v ssa.Value) bool {
+						if v == obj {
+							return true
+						}
+						if cell != nil {
+							if v == ssa.Value(cell) {
+								return true
+							}
+							if ld, ok := v.(*ssa.UnOp); ok && ld.X == ssa.Value(cell) {
+								return true
+							}
+						}
+						return false
 					}
 					// rewritten inside the loop: clear/delete/map update/store through it, or handed (by address) to a call
 					mut := ""
@@ -575,30 +602,30 @@ func ruleRowAlias(p *Prog, r *Result) {
 						for _, in2 := range b2.Instrs {
 							switch y := in2.(type) {
 							case *ssa.MapUpdate:
-								if y.Map == obj {
+								if isObj(y.Map) {
 									mut = p.InstrPos(y)
 								}
 							case ssa.CallInstruction:
 								for _, a := range y.Common().Args {
-									if a == obj {
+									if isObj(a) {
 										mut = p.InstrPos(in2)
 									}
 									if mi, ok := a.(*ssa.MakeInterface); ok {
 										if al, ok := mi.X.(*ssa.Alloc); ok {
 											for _, sv := range storedInto(al) {
-												if sv == obj {
+												if isObj(sv) {
 													mut = p.InstrPos(in2)
 												}
 											}
 										}
-										if mi.X == obj {
+										if isObj(mi.X) {
 											mut = p.InstrPos(in2)
 										}
 									}
 								}
 							case *ssa.Store:
 								if y != st {
-									if ia2, ok := y.Addr.(*ssa.IndexAddr); ok && stripConv(ia2.X) == obj {
+									if ia2, ok := y.Addr.(*ssa.IndexAddr); ok && isObj(stripConv(ia2.X)) {
 										mut = p.InstrPos(y)
 									}
 								}
@@ -680,6 +707,13 @@ func ruleArgFresh(p *Prog, r *Result) {
 				if isInput(x) {
 					fromInput = true
 					viaElem = elem
+					return
+				}
+				// an operand column or evaluated value: writing the column's own slots is how vector code returns
+				// its result, writing INTO a value taken out of it is not
+				if elem && (isExecuteBatchResult(x) || isExecuteResult(x)) {
+					fromInput = true
+					viaElem = true
 					return
 				}
 				switch y := x.(type) {
@@ -772,3 +806,140 @@ func (p *Prog) mayReturnArg(g *ssa.Function) bool {
 }
 
 var _ = strings.TrimSpace
+
+func isExecuteResult(v ssa.Value) bool {
+	ex, ok := v.(*ssa.Extract)
+	if !ok || ex.Index != 0 {
+		return false
+	}
+	c, ok := ex.Tuple.(*ssa.Call)
+	if !ok {
+		return false
+	}
+	if c.Call.IsInvoke() {
+		return c.Call.Method.Name() == "Execute"
+	}
+	f := c.Call.StaticCallee()
+	return f != nil && f.Name() == "Execute"
+}
+
+// ---------------- ARMTWIN ----------------
+
+func init() {
+	register("ARMTWIN", "text is text whether it arrives as string or []byte: in every type switch of the package that has both a `string` and a `[]byte` arm, the two arms call the same functions (the bytes/strings twins of the standard library counted as one); a conversion that trims, folds or parses in one arm only makes stored values ([]byte) and computed or folded values (string) behave differently", ruleArmTwin)
+}
+
+func ruleArmTwin(p *Prog, r *Result) {
+	isStringT := func(t types.Type) bool {
+		b, ok := t.(*types.Basic)
+		return ok && b.Kind() == types.String
+	}
+	isBytesT := func(t types.Type) bool {
+		sl, ok := t.(*types.Slice)
+		if !ok {
+			return false
+		}
+		b, ok := sl.Elem().(*types.Basic)
+		return ok && b.Kind() == types.Uint8
+	}
+	norm := func(q string) string {
+		q = strings.TrimPrefix(q, "bytes.")
+		q = strings.TrimPrefix(q, "strings.")
+		return q
+	}
+	n := 0
+	for _, fn := range p.Funcs {
+		// assertions grouped by asserted operand
+		type arm struct {
+			ta    *ssa.TypeAssert
+			block *ssa.BasicBlock // success successor
+		}
+		arms := map[ssa.Value]map[string]arm{}
+		for _, b := range fn.Blocks {
+			f := ifOf(b)
+			if f == nil {
+				continue
+			}
+			ex, ok := f.Cond.(*ssa.Extract)
+			if !ok || ex.Index != 1 {
+				continue
+			}
+			ta, ok := ex.Tuple.(*ssa.TypeAssert)
+			if !ok || !ta.CommaOk {
+				continue
+			}
+			kind := ""
+			if isStringT(ta.AssertedType) {
+				kind = "string"
+			} else if isBytesT(ta.AssertedType) {
+				kind = "[]byte"
+			}
+			if kind == "" {
+				continue
+			}
+			if arms[ta.X] == nil {
+				arms[ta.X] = map[string]arm{}
+			}
+			arms[ta.X][kind] = arm{ta, b.Succs[0]}
+		}
+		idx := 0
+		var xs []ssa.Value
+		for x := range arms {
+			xs = append(xs, x)
+		}
+		sort.Slice(xs, func(i, j int) bool { return xs[i].Pos() < xs[j].Pos() })
+		for _, x := range xs {
+			m := arms[x]
+			sa, ok1 := m["string"]
+			ba, ok2 := m["[]byte"]
+			if !ok1 || !ok2 || sa.block == ba.block {
+				continue // one arm only, or a shared `case string, []byte:` arm
+			}
+			callsOf := func(entry *ssa.BasicBlock, other *ssa.BasicBlock) map[string]bool {
+				out := map[string]bool{}
+				for _, b := range fn.Blocks {
+					if !(b == entry || entry.Dominates(b)) {
+						continue
+					}
+					if len(entry.Preds) != 1 {
+						continue
+					}
+					for _, in := range b.Instrs {
+						if c, ok := in.(ssa.CallInstruction); ok {
+							if g := c.Common().StaticCallee(); g != nil {
+								if q := p.qualName(g); q == "bytes.Equal" || q == "bytes.Compare" {
+									continue // what == and < are for strings
+								}
+								out[norm(p.qualName(g))] = true
+							} else if c.Common().IsInvoke() {
+								out["invoke "+c.Common().Method.Name()] = true
+							}
+						}
+					}
+				}
+				return out
+			}
+			cs, cb := callsOf(sa.block, ba.block), callsOf(ba.block, sa.block)
+			if len(sa.block.Preds) != 1 || len(ba.block.Preds) != 1 {
+				continue
+			}
+			n++
+			idx++
+			var onlyS, onlyB []string
+			for k := range cs {
+				if !cb[k] {
+					onlyS = append(onlyS, k)
+				}
+			}
+			for k := range cb {
+				if !cs[k] {
+					onlyB = append(onlyB, k)
+				}
+			}
+			sort.Strings(onlyS)
+			sort.Strings(onlyB)
+			r.add(len(onlyS) == 0 && len(onlyB) == 0, fmt.Sprintf("%s|switch#%d", p.FName(fn), idx), p.InstrPos(sa.ta), fmt.Sprintf("the string and []byte arms treat their text alike (only in the string arm: %v; only in the []byte arm: %v)", onlyS, onlyB))
+		}
+	}
+	r.floor("type switches with a string and a []byte arm", n, 5)
+}
